@@ -292,6 +292,7 @@ def run(ctx):
                where=b.loc, detail=None if ok else K.why(f, mp, fn))
 
     check_merge_iterators(ctx, f)
+    check_covers_family(ctx, f)
 
     # ---- C13.e shift sites ---------------------------------------------------------------
     shifts = []
@@ -486,3 +487,50 @@ def check_merge_iterators(ctx, f):
                "one step of %s does, for every combination of (left head, right head, their order), what the set operation over two "
                "ascending sequences requires" % ty, where=b.loc, detail={"differences": diff, "problems": problems[:4]})
     ctx.floor("R-REG", "merge iterators over SmallAsnSet", n, 4)
+
+
+def check_covers_family(ctx, f):
+    """Prefix::covers can answer anything but `false` only for two prefixes of the same address family: on every path
+    that is feasible when is_v4(self) != is_v4(other), the result is the constant false."""
+    from engine import orderlogic as OL
+    fn = "resources::addr::Prefix::covers"
+    b = f.body(fn)
+    if b is None:
+        return ctx.missing("R-GRD", "Prefix::covers", fn)
+    ctx.saw_fn(fn)
+    s = K.sym_of(b)
+    try:
+        ps = OL.paths(b, s)
+    except OL.NotComparisonOnly as e:
+        return ctx.ob("R-GRD", "Prefix::covers:same-family", False, "Prefix::covers is loop-free: %s" % e, where=b.loc)
+    A, B = "Prefix::is_v4(self)", "Prefix::is_v4(%2)"
+    bad = []
+    for va, vb in ((0, 1), (1, 0)):
+        env = {A: va, B: vb}
+        for conds, ret in ps:
+            feasible = True
+            for a, truth in conds:
+                neg = False
+                while a[0] == "not":
+                    a, neg = a[1], not neg
+                v = None
+                if a[0] == "cmp":
+                    x, y = env.get(K.alpha(render(a[2]), b)), env.get(K.alpha(render(a[3]), b))
+                    if x is not None and y is not None:
+                        v = {"<": x < y, "<=": x <= y, ">": x > y, ">=": x >= y, "==": x == y, "!=": x != y}[a[1]]
+                elif a[0] == "opaque":
+                    k = K.alpha(a[1], b)
+                    if k in env:
+                        v = bool(env[k])
+                if v is None:
+                    continue            # a test on something else: may go either way
+                if neg:
+                    v = not v
+                if v != truth:
+                    feasible = False
+                    break
+            if feasible and not (ret is not None and OL.atom(ret) == ("const", False)):
+                bad.append({"is_v4(self)": va, "is_v4(other)": vb, "returns": render(ret)[:120] if ret is not None else None})
+    ctx.ob("R-GRD", "Prefix::covers:same-family", not bad,
+           "Prefix::covers returns false whenever the two prefixes are of different address families (no path that is feasible "
+           "then returns anything else)", where=b.loc, detail={"paths": len(ps), "counterexamples": bad[:3]})
